@@ -168,6 +168,7 @@ detail::temporary_allocator_dtor_t::~temporary_allocator_dtor_t() noexcept
 
 temporary_stack_initializer::temporary_stack_initializer(std::size_t initial_size)
 {
+    (void)&thread_exit_detector; // ODR-use it also if an existing stack is adopted
     if (!temp_stack)
         temp_stack = temporary_stack_list_obj.create(initial_size);
 }
@@ -186,6 +187,7 @@ temporary_stack_initializer::~temporary_stack_initializer() noexcept
 
 temporary_stack& foonathan::memory::get_temporary_stack(std::size_t initial_size)
 {
+    (void)&thread_exit_detector; // ODR-use it also if an existing stack is adopted
     if (!temp_stack)
         temp_stack = temporary_stack_list_obj.create(initial_size);
     return *temp_stack;
